@@ -109,6 +109,23 @@ extern "C" void h_WriteReal()
     __CPROVER_assert(ok, "C09 a written REAL is the %.15G rendering with only the required decimal point inserted before the exponent");
 }
 
+/* must-fail canary (vacuity guard) for h_WriteReal: the assumed set of %.15G renderings is not empty and contains a rendering with an
+ * exponent and without a decimal point (the case in which the point has to be inserted before the E), so the claim that WriteReal never
+ * meets such a rendering has to be refuted */
+extern "C" void h_canary_WriteReal_inputs()
+{
+    IN_ARR(char, in_r, 24);
+    in_r[22] = 0; in_r[23] = 0;
+    for (int i = 0; i < 24; i++) g_G_out[i] = in_r[i];
+    __CPROVER_assume(is_G_output(g_G_out));
+    __CPROVER_assume(g_G_out[0] != 'I' && g_G_out[0] != 'N' && g_G_out[1] != 'I' && g_G_out[1] != 'N');
+    g_sprintf_calls = 0;
+    std::string s = WriteReal(0.0);
+    int n = (int)strlen(g_G_out), hasdot = 0, epos = -1;
+    for (int i = 0; i < n; i++) { if (g_G_out[i] == '.') hasdot = 1; if (g_G_out[i] == 'E') epos = i; }
+    __CPROVER_assert(!(g_sprintf_calls == 1 && epos > 0 && !hasdot), "canary: no rendering with an exponent and without a decimal point is ever written (must be refuted)");
+}
+
 /* C09/C03: INTEGER and NUMBER tokens: the value the conversion produced is the value stored; a token that converts to
  * nothing leaves the caller's value untouched and raises an error; what follows the token is judged by CheckRemainingInput,
  * once, with the caller's delimiter list */
